@@ -1,33 +1,43 @@
 META = dict(
-    engine='vranks',
+    engine='vranks+cosched',
     technique='explicit-state model checking of the real four-counter module over N virtual ranks (send_am / taskpool_lookup stubbed): BFS to closure over all interleavings of task completion, application sends/receipts (3-step), start-up release, taskpool_ready and control-message delivery; safety oracle evaluated inside the termination callback, terminal-state check, backward-reachability liveness check on the stored graph',
     level_text='All reachable global states of the real termdet_fourcounter_module.c for N = 1..3 (quick) and 4..5 (thorough, largest configurations under a deadline / state cap) with a bounded workload (<= T initial tasks per rank, <= M application messages in total, any sender/receiver pattern): no rank ever declares termination unless every rank is idle, no application message is in transit or half-received, and no rank declares twice; every terminal state has all ranks TERMINATED and from every reachable state such a state is reachable.',
-    level_note='Handlers run atomically (one communication thread per process; thread-level races between addto_nb_tasks and the handlers are outside this leg); per-(source,destination,tag) FIFO channels with arbitrary delay, no loss; usage contract: the DSL holds one pending runtime action across taskpool_ready, every application message creates one task between incoming_message_start and _end, activations are handed only to ready taskpools; the process-global delayed-message list is virtualised per rank; statistics, time stamps and rwlock ticket words are excluded from the state.',
+    level_note='vranks legs: handlers run atomically (one communication thread per process); the cosched leg justifies this by showing that concurrent worker / communication-thread entry points of one rank are linearizable (final state and control messages equal those of some op-atomic interleaving) for <= b preemptions, sequential consistency assumed; per-(source,destination,tag) FIFO channels with arbitrary delay, no loss; usage contract: the DSL holds one pending runtime action across taskpool_ready, every application message creates one task between incoming_message_start and _end, activations are handed only to ready taskpools; the process-global delayed-message list is virtualised per rank; statistics, time stamps and rwlock ticket words are excluded from the state.',
 )
-RULE = ("states = distinct canonical global states (monitor fields without statistics/time stamps/lock words, load counters, harness flags, parked and in-flight messages); "
+RULE = ("vranks legs: states = distinct canonical global states (monitor fields without statistics/time stamps/lock words, load counters, harness flags, parked and in-flight messages); "
         "non-trivial = a detection wave (control message in flight or parked) coexists with application activity (busy rank, message in transit or half received); "
-        "outcomes = distinct fully-terminated terminal states (they differ in the per-rank message counters and last wave sums)")
-import subprocess
+        "outcomes = distinct fully-terminated terminal states (they differ in the per-rank message counters and last wave sums); "
+        "cosched leg (e1_threads): every schedule with <= b preemptions of 11 two/three-thread scripts (worker entry points vs communication-thread entry points of one rank), "
+        "scheduling points = instrumented accesses to the monitor's protocol fields, the two load counters and the delayed list; outcome = final state + control messages + completion order of the operations")
+import os, subprocess
 from concurrent.futures import ThreadPoolExecutor
 
 QUICK = [(3, 1, 3, 0), (3, 2, 2, 0), (3, 1, 2, 1), (2, 2, 3, 0), (2, 2, 3, 1), (1, 2, 3, 0)]
-# thorough: complete DESIGN bound for N=3, then N=4/5 by increasing workload; the last ones are expected to hit the deadline / cap
-THOROUGH = [(4, 2, 3, 0), (5, 1, 2, 0), (4, 1, 3, 0), (4, 2, 2, 0), (3, 2, 3, 0), (3, 2, 3, 1), (4, 1, 2, 0), (5, 1, 1, 0), (5, 1, 1, 1),
+# thorough: complete DESIGN bound for N=3, then N=4/5 by increasing workload; the first two are expected to hit the deadline / cap on a loaded machine
+THOROUGH = [(5, 1, 2, 0), (4, 1, 3, 0), (4, 2, 2, 0), (3, 2, 3, 0), (3, 2, 3, 1), (4, 1, 2, 0), (5, 1, 1, 0), (5, 1, 1, 1),
             (4, 1, 2, 1), (3, 1, 3, 0), (2, 2, 3, 0), (2, 2, 3, 1), (1, 2, 3, 0)]
 
 
 def build(ctx):
-    return ctx.compile('hk-mpi', 'fc_h', ['fc_h.c'], instr=False, mpi=True, cflags=['-I/verif/engine/vranks'])
+    return ctx.compile('hk-mpi', 'fc_h', ['fc_h.c'], instr=False, mpi=True, cflags=['-I/verif/engine/vranks', '-O2'])
+
+
+def build_e1(ctx):
+    return ctx.compile('hk-mpi', 'fc_e1', ['fc_e1.c'], engine='cosched', instr=True, mpi=True)
 
 
 def check(ctx):
     exe = build(ctx)
+    exe1 = build_e1(ctx)
     quick = ctx.tier == 'quick'
-    common = ['--outdir', '/verif/out', '--deadline', '55' if quick else '540']
+    common = ['--outdir', '/verif/out', '--deadline', '55' if quick else '840']
     cap = '6000000' if quick else '30000000'
     jobs = [(['bfs'] + [str(x) for x in c] + [cap], 'N%d_T%d_M%d_L%d' % c) for c in (QUICK if quick else THOROUGH)]
-    with ThreadPoolExecutor(max_workers=4 if quick else 5) as ex:
+    with ThreadPoolExecutor(max_workers=5 if quick else 6) as ex:
+        # second leg (E1): one rank under real threads, preemption bound 1 (quick) / 3 (thorough)
+        e1 = ex.submit(lambda: ctx.run_cosched(exe1, int(os.environ.get('VERIF_C11_E1_BOUND', 1 if quick else 3)), deadline=60 if quick else 600, label='e1_threads'))
         list(ex.map(lambda j: ctx.run_engine(exe, common + j[0], label=j[1], timeout=1500), jobs))
+        e1.result()
     ctx.legs.sort(key=lambda l: l.get('leg', ''))
     for l in ctx.legs:
         if not l.get('exhaustive') and not l.get('violations'):
@@ -39,4 +49,6 @@ def check(ctx):
 
 
 def replay(ctx, path, obj):
-    return subprocess.call([build(ctx), '--replay', path])
+    if obj.get('engine') == 'vranks':
+        return subprocess.call([build(ctx), '--replay', path])
+    return subprocess.call([build_e1(ctx), '--replay', path])
